@@ -14,6 +14,12 @@ META = dict(
     not_covered=['the evaluation lambdas of gwb-grid main (writes data_set[..][i] only)', 'the query path below World::properties (models, distance functions) beyond their const-ness', 'vtu output'],
     enforced_elsewhere={},
 )
+# bounded frame units for Fault/SubductingPlate::properties (contracts/c14_frame.c) were tried with every loop cut after one
+# iteration: the DFCC query still does not finish in 900 s, so they are not part of the check (DESIGN 15)
+FSTUBS = ['Utilities_distance_point_from_curved_planes', 'Objects_NaturalCoordinate_get_surface_coordinates', 'Objects_NaturalCoordinate_get_depth_coordinate',
+          'grains_ctor', 'grains_unroll_into', 'BoundingBox2_point_inside']
+FREPL = ['Utilities_distance_point_from_curved_planes', 'Objects_NaturalCoordinate_get_surface_coordinates', 'Objects_NaturalCoordinate_get_depth_coordinate',
+         'BoundingBox2_point_inside', 'CoordinateSystems_Interface_natural_coordinate_system']
 UNITS = [
     dict(name='parallel_for', enforce='parallel_for', contracts='c14_parallel_for.c', harness='h_parallel_for',
          targets=[dict(tu='source/gwb-grid/main.cc', qual='ThreadPool::parallel_for', sig='(lambda at /repo/source/gwb-grid/main.cc', first_of_many=True, filter='', cname='parallel_for')],
